@@ -160,6 +160,41 @@ class Ctx(object):
         if not cond:
             raise AnalysisError(msg)
 
+    def _canon(self, module, function, text):
+        """construct text with unstable identifiers (locals) replaced by placeholders numbered by first occurrence"""
+        import builtins
+        import keyword
+        import re
+
+        stable = set(keyword.kwlist) | set(dir(builtins)) | {"self", "cls"}
+        m = self.index.modules.get(module) if self.index is not None else None
+        if m is not None:
+            stable |= set(m.top)
+            f = self.index.funcs.get(module + "." + function)
+            while f is not None:
+                stable |= set(f.params)
+                f = f.outer
+        out, seen = [], {}
+        pos = 0
+        tok = re.compile(r"""('(?:\\.|[^'\\])*'|"(?:\\.|[^"\\])*")|([A-Za-z_]\w*)""")
+        for mt in tok.finditer(text):
+            out.append(text[pos : mt.start()])
+            pos = mt.end()
+            if mt.group(1) is not None:
+                out.append(mt.group(1))
+                continue
+            ident = mt.group(2)
+            before = text[: mt.start()].rstrip()
+            after = text[mt.end() :].lstrip()
+            is_attr = before.endswith(".")
+            is_kwname = after.startswith("=") and not after.startswith("==") and (before.endswith("(") or before.endswith(","))
+            if ident in stable or is_attr or is_kwname:
+                out.append(ident)
+            else:
+                out.append("\u00a7{}".format(seen.setdefault(ident, len(seen))))
+        out.append(text[pos:])
+        return "".join(out)
+
     # ------------------------------------------------------------- finishing
     def finish(self):
         """print report, write evidence; returns exit code"""
@@ -168,12 +203,25 @@ class Ctx(object):
         for f in findings:
             if f.get("status", "known") == "known":
                 known[(f["rule"], f["module"], f["function"], f["construct"])] = f
+        # a listed finding is the same finding after a local variable of its function was renamed: besides the
+        # exact key, match on the construct with every identifier that is not a stable name (keyword, builtin,
+        # module-level name, parameter, attribute, keyword-argument name) replaced by a positional placeholder
+        known_canon = {}
+        for k, f in known.items():
+            known_canon[(k[0], k[1], k[2], self._canon(k[1], k[2], k[3]))] = k
         viol = [o for o in self.obligations if not o.ok]
         unlisted, listed = [], []
         seen_known = set()
         for o in viol:
             if o.key() in known:
                 listed.append(o)
+                seen_known.add(o.key())
+                continue
+            ck = (o.rule, o.module, o.function, self._canon(o.module, o.function, o.construct))
+            if ck in known_canon:
+                known[o.key()] = known[known_canon[ck]]
+                listed.append(o)
+                seen_known.add(known_canon[ck])
                 seen_known.add(o.key())
             else:
                 unlisted.append(o)
